@@ -117,7 +117,7 @@ Print Assumptions C07_same_geno_spec.
 
 Theorem C07_holds_pgen_sound :
   forall k, holds_pgen k = true ->
-  geno_domb false (pc_g k) = true -> chunk_dom (pc_cw k) -> chunk_dom (pc_cr k) ->
+  geno_domb (pc_strict_half k) (pc_g k) = true -> chunk_dom (pc_cw k) -> chunk_dom (pc_cr k) ->
   exists g', pc_back k = Ok g' /\ rt_rel (pc_g k) g'.
 Proof. exact holds_pgen_sound. Qed.
 Print Assumptions C07_holds_pgen_sound.
